@@ -45,9 +45,16 @@ EXPLANATION = ('Coq: unbounded soundness lemmas for the rewrite rules (x+0, 0+x,
                'whenever the before-module terminates normally; no typing hypothesis). Both validators are run inside coqc '
                'on the output of the real passes (irgen modules and C-derived modules after mem2reg); pairs they do not decide '
                '(uses replaced across blocks, constants of other blocks, x+0 on a value whose range is not evident, dropped '
-               'loads/allocs, LoadAfterStore forwarding) are executed instead. NOT proved: the CFG-changing passes '
-               '(Mem2RegPromotor, CleanPass, TailCallOptimization, CJumpPass) and LoadAfterStorePass as passes - for those '
-               'the evidence is differential execution only (no check_promote / check_clean validator was built). '
+               'loads/allocs, LoadAfterStore forwarding) are executed instead. A third verified validator, check_modul_cfg / check_cfg (c02_check_clean_sound), covers CleanPass: after-blocks '
+               'correspond to head blocks of the before-function (hint beta by block names), jumps to non-head blocks without phis '
+               'are flattened (glued blocks), jump targets are resolved through single-jump blocks (bypassed empty blocks, a '
+               'silent step thanks to c02_exec_fuel_mono) and the phi inputs of the resolved edge must be related; it is run on '
+               'every real CleanPass pair (about three quarters accepted; glue with phi replacement across blocks is not). '
+               'Mem2RegPromotor: NO soundness theorem over IRSem is possible as stated - three real before/after pairs are '
+               'proved to differ under IRSem (c02_promote_*_refuted: read of a never-written alloca, address shift of later '
+               'allocas observed as an integer, integer constant aliasing the promoted cell); proved instead: the read-after-write '
+               'fact c02_rule_las (store then load of an in-range integer at the same address and type). Mem2RegPromotor, '
+               'TailCallOptimization, CJumpPass and LoadAfterStore forwarding as passes: differential execution only. '
                'Float arithmetic is outside IRSem; the float rules (x+0.0, CSE of +-0.0) are tested with Python floats.')
 TRUSTED = ['coq/Spec/IRSem.v as the meaning of IR; tools/irsem_py.py as its Python twin (cross-checked by the hub self-test)',
            'tools/irimport.py (live ppci.ir objects -> Coq terms) and the vid alignment hints passed to the validator '
@@ -708,13 +715,13 @@ def validator_modules(ctx, n_irgen, n_corpus, seed0):
     C-derived modules after Mem2RegPromotor.  true = proved equivalent by c02_check_local_sound; a function pair
     that is not decided is executed before/after (layer C) instead."""
     import re
+    c02_gen, ir, api, verify_module, print_module, classes = _ppci()
     import irimport
     import irgen
     import c02_csrc
-    c02_gen, ir, api, verify_module, print_module, classes = _ppci()
     reqs = []
 
-    def add(sp, pre, passes):
+    def add(sp, pre, passes, cfg_mode=False):
         m0, m1 = sp.make(), sp.make()
         try:
             for pn in pre:
@@ -728,21 +735,37 @@ def validator_modules(ctx, n_irgen, n_corpus, seed0):
         changed = [a[0] for a, b in zip(p0[3], p1[3]) if a != b]
         if not changed:
             return
-        term = ('(let m := %s in let m1 := %s in (check_modul (mk_cfg %d %d %d) m m1, '
-                'map (fun p => check_local (mk_cfg %d %d %d) (fst p) (snd p)) (combine (m_funcs m) (m_funcs m1))))'
-                % ((irimport.py_to_coq(p0), irimport.py_to_coq(p1)) + tuple(sp.cfg) + tuple(sp.cfg)))
+        if cfg_mode:
+            # beta: after block id -> before block id, by block name (untrusted hint of check_cfg)
+            hs = []
+            for fa, fb in zip(p0[3], p1[3]):
+                ids = {b[1]: b[0] for b in fa[4]}
+                hs.append('[%s]' % '; '.join('(%d, %d)' % (b[0], ids[b[1]]) for b in fb[4] if b[1] in ids))
+            term = ('(let m := %s in let m1 := %s in let hs := [%s]%%positive in '
+                    '(check_modul_cfg (mk_cfg %d %d %d) m m1 hs, '
+                    'map (fun t => check_cfg (mk_cfg %d %d %d) (fst (fst t)) (snd (fst t)) (snd t)) '
+                    '(combine (combine (m_funcs m) (m_funcs m1)) hs)))'
+                    % ((irimport.py_to_coq(p0), irimport.py_to_coq(p1), '; '.join(hs)) + tuple(sp.cfg) + tuple(sp.cfg)))
+        else:
+            term = ('(let m := %s in let m1 := %s in (check_modul (mk_cfg %d %d %d) m m1, '
+                    'map (fun p => check_local (mk_cfg %d %d %d) (fst p) (snd p)) (combine (m_funcs m) (m_funcs m1))))'
+                    % ((irimport.py_to_coq(p0), irimport.py_to_coq(p1)) + tuple(sp.cfg) + tuple(sp.cfg)))
         reqs.append((term, sp, pre, passes, [f[0] for f in p0[3]], changed))
     for k in range(n_irgen):
         sp = irgen_spec(c02_gen, seed0 + k, 2 + k % 2, c02_gen.FEATS_QUICK)
         for pn in LOCAL_PASSES:
             add(sp, [], [pn])
         add(sp, [], LOCAL_PASSES)
+        add(sp, [], ['CleanPass'], True)
+        add(sp, [], ['DeleteUnusedInstructionsPass', 'CleanPass'], True)
     for k in range(n_corpus):
         name, src = c02_csrc.CORPUS[(seed0 + k) % len(c02_csrc.CORPUS)]
         sp = c_spec(c02_csrc, name, src, sorted(c02_csrc.ARCHS)[k % 2])
         for pn in LOCAL_PASSES:
             add(sp, ['Mem2RegPromotor'], [pn])
         add(sp, ['Mem2RegPromotor'], LOCAL_PASSES)
+        add(sp, ['Mem2RegPromotor'], ['CleanPass'], True)
+        add(sp, ['Mem2RegPromotor', 'DeleteUnusedInstructionsPass'], ['CleanPass'], True)
     stats = collections.Counter()
     undecided = []
     from concurrent.futures import ThreadPoolExecutor
@@ -750,7 +773,7 @@ def validator_modules(ctx, n_irgen, n_corpus, seed0):
     with ThreadPoolExecutor(max_workers=4) as ex:
         outs = list(ex.map(lambda k: ctx.eval_terms('modul_%d' % (k // CH),
                                                     ['Spec.IRSyntax', 'Spec.IRSem', 'Model.OptValidate',
-                                                     'Model.OptValidateFn'], [r[0] for r in reqs[k:k + CH]]),
+                                                     'Model.OptValidateFn', 'Model.OptValidateCfg'], [r[0] for r in reqs[k:k + CH]]),
                            range(0, len(reqs), CH)))
     for k, out in zip(range(0, len(reqs), CH), outs):
         chunk = reqs[k:k + CH]
@@ -761,7 +784,8 @@ def validator_modules(ctx, n_irgen, n_corpus, seed0):
             return
         ctx.cov['evaluations'] += len(chunk)
         for (modres, fl), (term, sp, pre, passes, fnames, changed) in zip(res, chunk):
-            key = passes[0] if len(passes) == 1 else 'all_local_passes'
+            key = passes[0] if len(passes) == 1 else ('all_local_passes' if 'CleanPass' not in passes
+                                                      else '+'.join(passes))
             stats['modules_%s_%s' % (sp.source, 'proved' if modres == 'true' else 'undecided')] += 1
             fres = re.findall(r'VB (true|false)', fl)
             for fn, r in zip(fnames, fres):
@@ -782,7 +806,7 @@ def validator_modules(ctx, n_irgen, n_corpus, seed0):
         if sp.source == 'c' and f not in c02_csrc.entries(ir, m0):
             continue
         vecs = arg_vectors(random.Random(seed0), f, irgen, 6) if sp.source == 'irgen' else \
-            c02_csrc.c_arg_vectors(random.Random(seed0), f, 6)
+            c02_csrc.c_arg_vectors(random.Random(seed0), f, 10)
         for a in vecs:
             o, ru = c02_gen.run_main(m0, fn, a, sp.fuel, cfg=sp.cfg)
             if not isinstance(o, OkV) or ru:
@@ -800,6 +824,48 @@ def validator_modules(ctx, n_irgen, n_corpus, seed0):
     ctx.cov['distinct_nontrivial'] += stats['functions_proved']
 
 
+def promote_witness_tie(ctx):
+    """the three modules of Proofs/C02_promote.v are the importer's rendering of what the real Mem2RegPromotor
+    produces today: rebuild them and compare with the text of the Coq file"""
+    c02_gen, ir, api, verify_module, print_module, classes = _ppci()
+    import irimport
+
+    def r1():
+        m = _mod(ir); f, e, _ = _fn(ir, m, 'f', ir.i32, [])
+        a = ir.Alloc('a', 4, 4); e.add_instruction(a); p = ir.AddressOf(a, 'p'); e.add_instruction(p)
+        l = ir.Load(p, 'l', ir.i32); e.add_instruction(l); e.add_instruction(ir.Return(l)); return m
+
+    def r2():
+        m = _mod(ir); f, e, (x,) = _fn(ir, m, 'f', ir.i64, [('x', ir.i32)])
+        a = ir.Alloc('a', 4, 4); e.add_instruction(a); p = ir.AddressOf(a, 'p'); e.add_instruction(p)
+        e.add_instruction(ir.Store(x, p)); l = ir.Load(p, 'l', ir.i32); e.add_instruction(l)
+        b = ir.Alloc('b', 8, 8); e.add_instruction(b); pb = ir.AddressOf(b, 'pb'); e.add_instruction(pb)
+        c = ir.Cast(pb, 'c', ir.i64); e.add_instruction(c); e.add_instruction(ir.Return(c)); return m
+
+    def r3():
+        m = _mod(ir); f, e, _ = _fn(ir, m, 'f', ir.i32, [])
+        a = ir.Alloc('a', 4, 4); e.add_instruction(a); p = ir.AddressOf(a, 'p'); e.add_instruction(p)
+        five = ir.Const(5, 'five', ir.i32); e.add_instruction(five); e.add_instruction(ir.Store(five, p))
+        q = ir.Const(16777216, 'q', ir.ptr); e.add_instruction(q)
+        seven = ir.Const(7, 'seven', ir.i32); e.add_instruction(seven); e.add_instruction(ir.Store(seven, q))
+        l = ir.Load(p, 'l', ir.i32); e.add_instruction(l); e.add_instruction(ir.Return(l)); return m
+    from vlib import COQ
+    text = ' '.join(open(os.path.join(COQ, 'Proofs/C02_promote.v')).read().split())
+    res = {}
+    for k, b in enumerate((r1, r2, r3)):
+        m0, m1 = b(), b()
+        try:
+            classes['Mem2RegPromotor']().run(m1)
+            ok = ' '.join(irimport.module_to_coq(m0).split()) in text and ' '.join(irimport.module_to_coq(m1).split()) in text
+        except Exception:   # noqa: BLE001
+            ok = False
+        res['r%d' % (k + 1)] = 'matches Proofs/C02_promote.v' if ok else 'DIFFERS'
+        if not ok:
+            ctx.failed_stages.append(('translate', 'Mem2RegPromotor output for witness r%d differs from Proofs/C02_promote.v'
+                                      % (k + 1)))
+    ctx.cov['stages']['promote_witnesses'] = res
+
+
 def search(ctx):
     run_witnesses(ctx)
     differential(ctx, 60 if ctx.quick() else 600, not ctx.quick(), ctx.seed * 1000)
@@ -811,14 +877,16 @@ def run(ctx):
     except (ValueError, OSError, SyntaxError) as ex:
         ctx.log('cannot export the optimizer pipeline: %s' % ex)
         ctx.failed_stages.append(('translate', 'api.optimize pipeline: %s' % ex))
-    ok, _ = ctx.build(['Proofs/C02_rules.vo', 'Proofs/C02_validate.vo', 'Proofs/C02_local.vo', 'Gen/c02_pipeline.vo'])
+    ok, _ = ctx.build(['Proofs/C02_rules.vo', 'Proofs/C02_validate.vo', 'Proofs/C02_local.vo', 'Proofs/C02_clean.vo', 'Proofs/C02_promote.vo',
+                       'Gen/c02_pipeline.vo'])
     if ok:
         ctx.check_props('Props/C02.v')
     run_witnesses(ctx)
+    promote_witness_tie(ctx)
     thorough = (not ctx.quick()) or bool(ctx.failed_stages)
     if ok:
         validator_cases(ctx, 12 if ctx.quick() else 60, ctx.seed * 1000 + 500000)
-        validator_modules(ctx, 4 if ctx.quick() else 12, 3 if ctx.quick() else 8, ctx.seed * 1000 + 700000)
+        validator_modules(ctx, 3 if ctx.quick() else 12, 3 if ctx.quick() else 8, ctx.seed * 1000 + 700000)
     differential(ctx, 150 if not thorough else 2000, thorough, ctx.seed * 1000)
     ctx.cov['exhaustive'] = False
 
@@ -838,15 +906,17 @@ MANIFEST = {
             'The validators run inside coqc on the output of the real RemoveAddZero / ConstantFolder / CSE / DeleteUnused / '
             'LoadAfterStore passes; about 60 % of the changed functions (86 % of the changed blocks) are decided in Coq, the rest is '
             'executed. '
-            'The CFG-changing passes (mem2reg, clean, tail call, cjump) and LoadAfterStore forwarding are NOT proved: '
-            'differential evidence only',
+            'A third verified validator (c02_check_clean_sound: glued blocks, bypassed empty blocks, re-routed phi inputs) is run '
+            'on every real CleanPass pair (about three quarters accepted). Mem2RegPromotor cannot be a refinement under the '
+            'concrete-address reference semantics (three real pairs proved to differ: c02_promote_*_refuted); it, tail call, '
+            'cjump and LoadAfterStore forwarding rest on differential execution, plus the proved read-after-write rule c02_rule_las',
     'note': 'trusted: IRSem.v reading of the IR, irsem_py twin, irimport; float rules tested with Python floats; frame-slot '
             'reading of Alloc for the tail-call witness. Not decided by the Coq validators (executed instead): uses replaced '
             'across blocks, constants defined in other blocks, x+0 on values whose range is not evident, dropped loads/allocs, '
             'store-to-load forwarding. Defects found and fixed: LoadAfterStore vs CopyBlob, CleanPass phi overwrite, tail call '
             'with live stack memory, CSE of +-0.0, x+0.0; % folding and replace_use on repeated operands were fixed by C38/C03',
-    'technique': 'verified validators (block + whole module, block-local passes) and rule lemmas in Coq; differential execution '
-                 'against the reference interpreter for everything else',
+    'technique': 'verified validators (block, whole module for block-local passes, CFG validator for CleanPass) and rule lemmas '
+                 'in Coq; differential execution against the reference interpreter for everything else',
 }
 
 
